@@ -414,9 +414,22 @@ fn sets(rep: &mut Report, seed: u64, scale: u64) {
                         if a.contains(&Q(k)) != ra.contains(&k) { problems.push(format!("contains {k}")); }
                     }
                     9 => {
-                        let m = 2 + g.below(3);
-                        a.retain(|x| x.k() % m != 0);
-                        ra.retain(|x| x % m != 0);
+                        if a.verif_state().old.is_some() && g.chance(1, 2) {
+                            // reject exactly what is still in the old table (emptied in place), then fill up
+                            let mut ok = vec![];
+                            a.verif_old_keys(usize::MAX, |x| ok.push(x.k()));
+                            a.retain(|x| !ok.contains(&x.k()));
+                            ra.retain(|x| !ok.contains(x));
+                            let room = a.capacity() - a.len().min(a.capacity());
+                            for i in 0..(room as u64 + 3) {
+                                let kk = universe + 100 + step as u64 * 1000 + i;
+                                if a.insert(Key::new(kk)) != ra.insert(kk) { problems.push(format!("insert {kk} after retain")); }
+                            }
+                        } else {
+                            let m = 2 + g.below(3);
+                            a.retain(|x| x.k() % m != 0);
+                            ra.retain(|x| x % m != 0);
+                        }
                     }
                     10 => {
                         let m = 2 + g.below(3);
@@ -559,6 +572,23 @@ fn par(rep: &mut Report, seed: u64, scale: u64) {
                     e2.extend(pairs.clone());
                     if e1 != e2 {
                         problems.push("par_extend differs from extend".into());
+                    }
+                    // duplicate keys: the later pair wins, exactly as with the sequential calls (lengths that
+                    // are not powers of two make rayon's split tree lopsided)
+                    let ndup = 1 + g.below(97) as usize;
+                    let modulus = 1 + g.below(7);
+                    let dups: Vec<(u64, u64)> = (0..ndup as u64).map(|i| (i % modulus, 1000 + i)).collect();
+                    let mut d1 = m.clone();
+                    let mut d2 = m.clone();
+                    pool.install(|| d1.par_extend(dups.clone()));
+                    d2.extend(dups.clone());
+                    if d1 != d2 {
+                        problems.push(format!("par_extend with duplicate keys differs from extend ({ndup} pairs over {modulus} keys)"));
+                    }
+                    let g1: PM = pool.install(|| dups.clone().into_par_iter().collect());
+                    let g2: PM = dups.iter().copied().collect();
+                    if g1 != g2 {
+                        problems.push(format!("from_par_iter with duplicate keys differs from from_iter ({ndup} pairs over {modulus} keys)"));
                     }
                     let f1: PM = pool.install(|| pairs.clone().into_par_iter().collect());
                     let f2: PM = pairs.iter().copied().collect();
@@ -1184,6 +1214,7 @@ fn fault(rep: &mut Report, seed: u64, scale: u64) {
                         let text = problems.join("; ");
                         if text.contains("entries iterated") || text.contains("not found by get") || text.contains("iterated twice") {
                             rep.fail("C14", text.clone(), log.join("\n"));
+                            rep.fail("C08", text.clone(), log.join("\n"));
                         }
                         if text.contains("cached iterator") || text.contains("used after drop") || text.contains("dropped twice") || text.contains("canary") || text.contains("not the injected one") {
                             rep.fail("C05", text.clone(), log.join("\n"));
